@@ -2,6 +2,7 @@
 import pool
 
 META = {
+    "thorough_extra": ["mocks", "client-only"],
     "level": "proof",
     "explanation": "Inductive invariant |idle[t]| <= max_idle_per_host: the idle Vec has exactly one growth site "
                    "(IdleConnections::push, P1), reached only from PoolInner::push, where it is dominated by the edge "
